@@ -34,7 +34,7 @@ func verifC31Step(lo, hi int) {
 		return
 	}
 	// program: version byte, opcode, then symbolic immediates / following bytes
-	prog := make([]byte, 2+vr.Param(3, 6))
+	prog := make([]byte, 2+vr.Param(3, 4))
 	prog[0] = byte(version)
 	prog[1] = byte(op)
 	vr.Fill("imm", prog[2:])
